@@ -8,7 +8,7 @@ ALLOWED_AXIOMS = {"Classical_Prop.classic", "ClassicalDedekindReals.sig_not_dec"
                   "ClassicalDedekindReals.sig_forall_dec",
                   "FunctionalExtensionality.functional_extensionality_dep"}
 MANIFEST = {
-    "text": "Coq theorems over the broker model: across any update batch a signal's value changes only if can_write_datapoint holds for the caller and its target only if can_write_actuator_target holds; a new entry needs can_create; metadata (id, path, data type, entry type, ...) of a registered signal is immutable over every history; fully refused batches, refused claims and failed actuations change nothing. Tied to the code by the history correspondence with generated permission sets, a state dump after every mutating operation and a permission oracle on the implementation's own state changes.",
+    "text": "Coq theorems over the broker model: across any update batch a signal's value changes only if can_write_datapoint holds for the caller and its target only if can_write_actuator_target holds; a new entry needs can_create; metadata (id, path, data type, entry type, ...) of a registered signal is immutable over every history; fully refused batches, refused claims and failed actuations change nothing. Tied to the code by the history correspondence with generated permission sets, a state dump after every mutating operation and a permission oracle on the implementation's own state changes. Also: c04_expired_token_changes_nothing / c04_expired_token_registers_nothing (whatever its scopes, an expired token changes no value, target or registration); provider-stream scenarios with claims by a token that covers only part of what it names (refused as a whole, nothing registered).",
     "note": "Trusted: Coq kernel; the 4 standard-library axioms that enter through Flocq (used by validate's float comparisons) as printed by Print Assumptions; extraction + OCaml driver (vm_compute cross-check each run); harness/src/fam_hist.rs and hook H3 (verif_housekeeping_step); the Python monitors. Modelled, not verified: tokio broadcast (ring with capacity rounded up to a power of two, Lagged skipping) and RwLock, HashMap iteration order (outputs are sorted), the gRPC handlers on top of AuthorizedAccess (exercised by the handler-level checks), SystemTime (a timestamp is canonicalised to the operation during which it was taken; expiry is crossed in real time at a TICK).",
 }
 PROPS = set("C04".split(","))
